@@ -522,6 +522,10 @@ func evalWhileLoopStmt(vm *r.VM, node *syntax.WhileLoopStmt) error {
 			}
 			return err
 		}
+		// 输出 inside the loop body ends the loop as well
+		if vm.GetReturnValue() != nil {
+			return nil
+		}
 	}
 }
 
@@ -658,6 +662,10 @@ func evalIterateStmt(vm *r.VM, node *syntax.IterateStmt) error {
 				}
 				return err
 			}
+			// 输出 inside the loop body ends the loop as well
+			if vm.GetReturnValue() != nil {
+				return nil
+			}
 		}
 	case *value.HashMap:
 		for _, key := range tv.GetKeyOrder() {
@@ -674,6 +682,10 @@ func evalIterateStmt(vm *r.VM, node *syntax.IterateStmt) error {
 					}
 				}
 				return err
+			}
+			// 输出 inside the loop body ends the loop as well
+			if vm.GetReturnValue() != nil {
+				return nil
 			}
 		}
 	default:
